@@ -177,6 +177,61 @@ def run_streaming(ck: Check):
             lv = "[" + "; ".join(coq_strs(l) for l in levels) + "]"
             exprs.append(f"(register {lv}, run_hist {coq_D(det)} {obs_fn(det)} {coq_strs(NAMES[det.name])} {coq_cfg_pos(det, cfg)} (register {lv}) ({opsx}))")
             cases.append((det, cfg, ops, tracked, final))
+    # (own generator: independent of the draws above)
+    import random as _random
+    from frouros.callbacks import HistoryConceptDrift as _H
+    from frouros.detectors.concept_drift import ADWIN as _ADWIN, CUSUM as _CUSUM, DDM as _DDM, PageHinkley as _PH
+
+    prng = _random.Random(171717)
+    # (i) the recorded input is the input VALUE itself, whatever its type: integers a double cannot hold, NumPy scalars
+    for cls in (_PH, _CUSUM):
+        big = [2**53 + 1 + 2 * j for j in range(6)] + [np.int64(2**60 + 3), np.float32(0.1), 7, 0.25]
+        cb = _H(name="h")
+        d = cls(callbacks=[cb])
+        ok = True
+        for j, v in enumerate(big, 1):
+            try:
+                d.update(value=v)
+            except Exception as e:  # noqa: BLE001
+                ck.violation(dict(clause="raises", detector=cls.__name__, scenario="exact-values"), dict(error=repr(e), values=[repr(x) for x in big[:j]]))
+                ok = False
+                break
+            got = cb.history["value"][-1]
+            if len(cb.history["value"]) != j or not (got == v and (isinstance(got, (int, np.integer)) == isinstance(v, (int, np.integer)))):
+                ck.violation(dict(clause="entry-content", detector=cls.__name__, var="value", cause="converted"), dict(what="the recorded input is not the value that was passed to update (exact integer / NumPy scalar changed on the way)", passed=repr(v), recorded=repr(got), step=j))
+                ok = False
+                break
+        ck.case(dict(kind="exact-values", detector=cls.__name__), nontrivial=True, key=repr(("exact-values", cls.__name__)))
+        ck.count("exact_value_runs")
+    # (ii) several callbacks alive at once (two detectors of different classes, interleaved): the logs an update returns
+    # hold that detector's callback only, and that callback's history
+    for k in range(3 if not thorough else 12):
+        ca, cbb = _H(name="a"), _H(name="b")
+        da, db = _DDM(callbacks=[ca]), _ADWIN(callbacks=[cbb])
+        na = nb = 0
+        for j in range(prng.choice([8, 20])):
+            if prng.random() < 0.5:
+                logs, who, cbx, dx = da.update(value=prng.choice([0, 1])), "a", ca, da
+                na += 1
+                cnt = na
+            else:
+                logs, who, cbx, dx = db.update(value=prng.random()), "b", cbb, db
+                nb += 1
+                cnt = nb
+            bad = None
+            if set(logs) != {who}:
+                bad = f"logs returned by detector {who!r} hold the keys {sorted(logs)}"
+            elif any(logs[who].get(key) is not val for key, val in cbx.history.items()) or set(logs[who]) != set(cbx.history):
+                bad = "logs are not that callback's history"
+            elif set(cbx.history) != {"value", "num_instances", "drift"} | set(dx.additional_vars.keys()):
+                bad = f"history keys {sorted(cbx.history)} are not the detector's variables"
+            elif any(len(v) != cnt for v in cbx.history.values()):
+                bad = "history lengths differ from the number of updates of that detector"
+            if bad:
+                ck.violation(dict(clause="logs-are-history", scenario="two-callbacks"), dict(what=bad, step=j, detectors=["DDM", "ADWIN"]))
+                break
+        ck.case(dict(kind="two-callbacks", run=k), nontrivial=True, key=repr(("two-callbacks", k)))
+        ck.count("two_callback_runs")
     res = coq_eval("C17", HDR17, exprs, shard=40)
     for (det, cfg, ops, tracked, final), r in zip(cases, res):
         ck.corr_cases += 1
@@ -296,6 +351,10 @@ def run_reset(ck: Check):
                         ok = False
                         break
                     exp = ptab[(cur, o[1])]
+                    if res is None or not hasattr(res, "p_value") or not hasattr(res, "statistic"):
+                        ck.violation(dict(clause="result-pre-reset", detector=cls.__name__, got="no-result"), dict(what="compare did not return the result of this comparison", got=repr(res), expected=(float(exp.statistic), float(exp.p_value)), **detail))
+                        ok = False
+                        break
                     if not (feq(float(res.p_value), float(exp.p_value)) and feq(float(res.statistic), float(exp.statistic))):
                         ck.violation(dict(clause="result-pre-reset", detector=cls.__name__), dict(what="returned result is not the one computed before the reset", got=(float(res.statistic), float(res.p_value)), expected=(float(exp.statistic), float(exp.p_value)), **detail))
                         ok = False
@@ -331,6 +390,8 @@ def run_reset(ck: Check):
                 res_, _ = d.compare(X=x)
             except Exception:  # noqa: BLE001
                 continue
+            if res_ is None:
+                continue  # reported by the result-pre-reset clause above
             pnan = float(res_.p_value)
             ck.case(dict(detector=cls.__name__, alpha=alpha, kind="nan-p-value", p=pnan), nontrivial=True, key=repr((cls.__name__, alpha, "nan")))
             if math.isnan(pnan) and d.X_ref is None:
@@ -373,7 +434,7 @@ def run_reset(ck: Check):
             was_reset = d.X_ref is None
             ck.case(dict(detector="KSTest", alpha=alpha, kind="tiny-p", p=p0), nontrivial=True, key=repr(("tinyp", nsep, alpha)))
             ck.count("tiny_p_cases")
-            if was_reset != (p0 <= alpha) or float(res_.p_value) != p0:
+            if was_reset != (p0 <= alpha) or res_ is None or float(res_.p_value) != p0:
                 ck.violation(dict(clause="reset-iff", detector="KSTest", p="tiny"), dict(what="reset decision differs from (p <= alpha) for a tiny p-value / tiny alpha", detector="KSTest", alpha=alpha, p=p0, was_reset=was_reset, n=nsep, reference=ref.tolist(), sample=x.tolist()))
     res = coq_eval("C17r", HDR17, exprs, shard=60)
     for (name, alpha, ops, cur, outs), r in zip(cases, res):
